@@ -307,7 +307,7 @@ def arith (W : Nat) (op form a b : String) : Option String := do
   let signedB := op = "iadd" || op = "isub" || op = "imul" || op = "idiv" || op = "irem" || op = "idivrem" ||
     op = "iand" || op = "ior" || op = "ixor" || op = "igcd" || op = "igcdext" || op = "gcd_ui" || op = "gcd_iu" ||
     op = "gcdext_ui" || op = "gcdext_iu" ||
-    op = "idiveuc" || op = "iremeuc" || op = "idivremeuc"
+    op = "idiveuc" || op = "iremeuc" || op = "idivremeuc" || op = "idivremassign"
   let signed := signedB || op = "ishl" || op = "ishr" || op = "ipow" || op = "inot"
   let xi ← (if signed then parseInt a else (fun n : Nat => (n : Int)) <$> parseNat a)
   let x := xi.natAbs
@@ -344,6 +344,25 @@ def arith (W : Nat) (op form a b : String) : Option String := do
       let ys := natWords W yi.natAbs
       let kind := if op = "idiv" then 0 else if op = "irem" then 1 else 2
       pure (fragSignedDiv W kind (← (if op = "idivrem" then parseForm form else parseFormA form)) (decide (xi < 0)) xs (decide (yi < 0)) ys, some ys)
+    -- `UBig op primitive` / `&UBig op primitive` (helper_macros.rs `impl_binop_with_primitive`: `self.op(UBig::from(rhs)).try_into()
+    -- .unwrap()`): the by-value-rhs skeleton with an inline right operand (`u64`: one word, `u128`: up to two)
+    | "padd" | "psub" | "pmul" | "pdiv" | "por" | "pxor" => do
+      let y ← parseNat b
+      let (f, bits) ← (match form with
+        | "v64" => some (Form.vv, 64) | "r64" => some (Form.rv, 64)
+        | "v128" => some (Form.vv, 128) | "r128" => some (Form.rv, 128) | _ => none)
+      if y ≥ 2 ^ bits then none
+      else
+        let ys := natWords W y
+        pure (if op = "padd" then fragAdd W f xs ys else if op = "psub" then fragSub W f xs ys
+              else if op = "pmul" then fragMul W sqS f xs ys else if op = "pdiv" then fragDivRem W false f xs ys
+              else if op = "por" then fragBit W .or f xs ys else fragBit W .xor f xs ys, some ys)
+    -- `DivRemAssign::div_rem_assign` of `IBig` (`impl_binop_assign_by_taking`: `let (a, b) = mem::take(self).div_rem(rhs); *self = a; b`)
+    | "idivremassign" => do
+      let yi ← parseInt b
+      let ys := natWords W yi.natAbs
+      let f ← (if form = "av" then some Form.vv else if form = "ar" then some Form.vr else none)
+      pure (fragSignedDiv W 2 f (decide (xi < 0)) xs (decide (yi < 0)) ys, some ys)
     -- round 6: `IBig`'s Euclidean division family (div_ops.rs `impl_ibig_div_euclid / rem_euclid / divrem_euclid`)
     | "idiveuc" | "iremeuc" | "idivremeuc" => do
       let yi ← parseInt b
